@@ -169,6 +169,10 @@ PlanProcFault ==
         /\ \E nm \in ProcNames \ Used :
              plan' = Append(plan, Entry("proc", nm, <<>>, "", 0, <<Param("x", FALSE, <<>>, "undefinedtype", UNK)>>, FALSE, FALSE))
         /\ fault' = "UndefinedType"
+     \/ /\ FaultOn("NotAType")                          \* a parameter whose type name denotes a procedure
+        /\ \E nm \in ProcNames \ Used, p \in {plan[e].name : e \in {x \in DOMAIN plan : plan[x].kind = "proc" /\ ~plan[x].dup}} \cup {"printi"} :
+             plan' = Append(plan, Entry("proc", nm, <<>>, "", 0, <<Param("x", FALSE, <<>>, p, UNK)>>, FALSE, FALSE))
+        /\ fault' = "NotAType"
   /\ UNCHANGED <<phase, tys, stack, out, ntok, cur, lsigs>>
 
 HasMain == \E d \in DOMAIN plan : plan[d].kind = "proc" /\ plan[d].name = "main" /\ ~plan[d].dup
@@ -186,7 +190,8 @@ Scope == cur.params \o cur.locals            \* seq of [name, ref, ty, bind]
 \* (locals before globals), so that procedure cannot be called here
 \* (the procedure's OWN name is excluded: the pinned server resolves the name in a procedure's header through
 \*  the local table as well, an observed defect outside the listed properties' core, see DESIGN 12.4)
-ShadowNames == IF Shadowing THEN {plan[d].name : d \in {e \in DOMAIN plan : plan[e].kind = "proc" /\ ~plan[e].dup}} \ {cur.proc} ELSE {}
+\* likewise a local may carry the name of a declared type; that type can then not be named in later local declarations
+ShadowNames == IF Shadowing THEN {plan[d].name : d \in {e \in DOMAIN plan : ~plan[e].dup}} \ {cur.proc} ELSE {}
 ScopeNames == {Scope[j].name : j \in DOMAIN Scope}
 Usable == {j \in DOMAIN Scope : Scope[j].ty # UNK}
 \* variables that yield type ty after k index steps
@@ -211,7 +216,7 @@ TypeExprRhs(dims, base, culprit) ==
 ParamRhs(d, j) ==
   LET p == plan[d].params[j]
       bind == "param:" \o plan[d].name \o ":" \o p.name
-      tculprit == IF p.base = "undefinedtype" THEN "UndefinedType" ELSE ""
+      tculprit == IF p.base = "undefinedtype" THEN "UndefinedType" ELSE IF p.ty = UNK THEN "NotAType" ELSE ""
       nameNode == IdNode(p.name, bind, "decl")
       body == (IF p.ref THEN <<Kw("ref")>> ELSE <<>>)
               \o (IF p.dup THEN Culprit("RedeclarationAsParameter", nameNode)
@@ -260,7 +265,7 @@ Prods(sym) ==
          \cup {<<O("VarDec", nm), Kw("var")>> \o IdNode(nm, "local:" \o cur.proc \o ":" \o nm, "decl") \o <<Sym(":")>>
                   \o TypeExprRhs(dims, base, "") \o <<Sym(";"), C,
                   A("enterLocal", [name |-> nm, dims |-> dims, base |-> base, d |-> ty]), N("Locals", ty, "")>>
-                 : nm \in (VarNames \cup ShadowNames) \ ScopeNames, dims \in Dims, base \in TypeRefs(ty)}
+                 : nm \in (VarNames \cup ShadowNames) \ ScopeNames, dims \in Dims, base \in TypeRefs(ty) \ ScopeNames}
          \cup (IF FaultOn("RedeclarationAsVariable") /\ ScopeNames # {}
                THEN {<<Mark("RedeclarationAsVariable"), O("VarDec", nm), Kw("var")>>
                       \o Culprit("RedeclarationAsVariable", IdNode(nm, "local:" \o cur.proc \o ":" \o nm \o ":dup", "decl"))
@@ -271,6 +276,16 @@ Prods(sym) ==
                       \o TypeExprRhs(<<>>, "undefinedtype", "UndefinedType") \o <<Sym(";"), C,
                       A("enterLocal", [name |-> nm, dims |-> <<>>, base |-> "undefinedtype", d |-> ty]), N("Locals", ty, "")>>
                       : nm \in VarNames \ ScopeNames}
+               ELSE {})
+         \* the type name of a local declaration denotes a variable of this procedure (locals before globals: also
+         \* when that variable hides a declared type) or a procedure declared EARLIER (the table is built in source
+         \* order: this or a later procedure is simply an undefined type at this point)
+         \cup (IF FaultOn("NotAType")
+               THEN {<<Mark("NotAType"), O("VarDec", nm), Kw("var")>> \o IdNode(nm, "local:" \o cur.proc \o ":" \o nm, "decl") \o <<Sym(":")>>
+                      \o TypeExprRhs(<<>>, b, "NotAType") \o <<Sym(";"), C,
+                      A("enterLocal", [name |-> nm, dims |-> <<>>, base |-> "undefinedtype", d |-> ty]), N("Locals", ty, "")>>
+                      : nm \in VarNames \ ScopeNames,
+                        b \in ScopeNames \cup ({plan[e].name : e \in {x \in 1..(ty - 1) : plan[x].kind = "proc" /\ ~plan[x].dup}} \ ScopeNames) \cup {"printi"}}
                ELSE {})
     [] n = "Stmts" -> (IF ntok < Grow /\ Len(stack) < 40 THEN {} ELSE {<<>>}) \cup (IF Slim /\ sym.ty >= 2 THEN {} ELSE {<<N("Stmt", 0, sym.x), N("Stmts", IF Slim THEN sym.ty + 1 ELSE 0, "")>>})
     [] n = "Stmt" ->
